@@ -345,6 +345,11 @@ fn run_case(line: &str) -> String {
                         .map(|s| s.to_string())
                         .collect()
                 });
+                let mut lines = lines;
+                if sp.cfg.exe.is_some() {
+                    // constructor order is not fixed: take the listed paths in sorted order
+                    lines.sort();
+                }
                 let mut parts = Vec::new();
                 let mut seen = std::collections::BTreeSet::new();
                 for l in lines.iter() {
